@@ -15,11 +15,18 @@
    c19.loopedges <n>                 →  for loop n: per candidate measure `text=e1+e2+…` with a `!` behind every unproved entry
    c19.loopsearch <k>                →  like sizesearch, for entry k of Gen.Loop.loopEntries: a valuation of ONE iteration under
                                         which the measure does not decrease (or is negative at the head)
-   c19.convopen / c19.convsearch <k> →  the same for the conversion obligations (Gen.Conv.convEntries) -/
+   c19.convopen / c19.convsearch <k> →  the same for the conversion obligations (Gen.Conv.convEntries)
+   c19.libsizeopen / libsizesearch / libloopopen / libloopedges / libloopsearch / libconvopen / libconvsearch
+                                     →  the same over the second group of generated files (Csvq/Gen/LibSizeFacts.lean, LibLoopFacts.lean,
+                                        LibIntConvFacts.lean: lib/doc, lib/json, lib/value, lib/option, lib/file, lib/terminal, lib/syntax,
+                                        lib/excmd, lib/cli, lib/action) -/
 import Csvq.Gen.ErrFacts
 import Csvq.Gen.SizeFacts
 import Csvq.Gen.LoopFacts
 import Csvq.Gen.IntConvFacts
+import Csvq.Gen.LibSizeFacts
+import Csvq.Gen.LibLoopFacts
+import Csvq.Gen.LibIntConvFacts
 namespace Csvq.Drive
 open Csvq.ErrFacts
 open Csvq.SizeFacts
@@ -38,6 +45,20 @@ def searchIn (entries : List SizeEntry) (n : String) : String :=
       match e.site.counterexample with
       | none => "none"
       | some l => "cex " ++ ",".intercalate (l.map toString)
+
+def loopOpenOf (sites : List LoopSite) (entries : List SizeEntry) : String :=
+  let open_ := (sites.zipIdx.filter (fun (l, _) => !l.proved entries)).map (fun (_, i) => toString i)
+  if open_.isEmpty then "-" else ",".intercalate open_
+
+def loopEdgesOf (sites : List LoopSite) (entries : List SizeEntry) (n : String) : String :=
+  match n.toNat? with
+  | none => "bad-op"
+  | some k =>
+    match sites[k]? with
+    | none => "bad-op"
+    | some l =>
+      let edge (i : Nat) : String := toString i ++ (match entries[i]? with | some e => if e.proof.isYes then "" else "!" | none => "?")
+      if l.cands.isEmpty then "-" else ";".intercalate (l.cands.map (fun c => "+".intercalate (c.2.map edge)))
 
 def c19 (cmd : String) (args : List String) : String :=
   match cmd, args with
@@ -65,6 +86,13 @@ def c19 (cmd : String) (args : List String) : String :=
       | some l =>
         let edge (i : Nat) : String := toString i ++ (match Csvq.Gen.Loop.loopEntries[i]? with | some e => if e.proof.isYes then "" else "!" | none => "?")
         if l.cands.isEmpty then "-" else ";".intercalate (l.cands.map (fun c => "+".intercalate (c.2.map edge)))
+  | "libsizeopen", [] => openOf Csvq.Gen.LibSize.sizeEntries
+  | "libsizesearch", [n] => searchIn Csvq.Gen.LibSize.sizeEntries n
+  | "libconvopen", [] => openOf Csvq.Gen.LibIntConv.convEntries
+  | "libconvsearch", [n] => searchIn Csvq.Gen.LibIntConv.convEntries n
+  | "libloopsearch", [n] => searchIn Csvq.Gen.LibLoop.loopEntries n
+  | "libloopopen", [] => loopOpenOf Csvq.Gen.LibLoop.loopSites Csvq.Gen.LibLoop.loopEntries
+  | "libloopedges", [n] => loopEdgesOf Csvq.Gen.LibLoop.loopSites Csvq.Gen.LibLoop.loopEntries n
   | _, _ => "bad-op"
 
 end Csvq.Drive
